@@ -10,8 +10,10 @@
        `property` under each referential attribute name (`refs`);
     2. `inst.__dict__[name]`, EXACT spelling;
     3. `Class.__getattr__`: loop over the declared attributes, first one whose `upper()` equals
-       `name.upper()`: `__dict__[attr]` if present, else `object.__getattribute__(self, attr)`
-       (property under the declared name, else AttributeError); no declared match → AttributeError.
+       `name.upper()`: `object.__getattribute__(self, attr)` (property under the declared name, else
+       `__dict__[attr]`, else AttributeError); no declared match → AttributeError.
+       (An instance created BEFORE `formalize` keeps the referential value in its `__dict__`; the property
+       shadows it under every spelling.)
   Not modelled: names that collide with Python-level attributes of `Class` (`__metaclass__`, `__add__`, …).
 -/
 
@@ -80,10 +82,11 @@ def getattr (c : Cls) (d : Dict) (sp : Name) : Read :=
     | some v => .val v
     | none =>
       match declMatch c sp with
-      | some a =>
-        match dget d a with
-        | some v => .val v
-        | none => if a ∈ c.refs then .prop a else .attrError
+      | some a =>                               -- return object.__getattribute__(self, attr): the normal lookup
+        if a ∈ c.refs then .prop a              -- under the DECLARED name - the property first, then `__dict__`
+        else match dget d a with
+          | some v => .val v
+          | none => .attrError
       | none => .attrError
 
 inductive SetRes where
@@ -91,14 +94,12 @@ inductive SetRes where
   | metaExc                       -- MetaException raised by the property's fset
   deriving DecidableEq, Repr
 
-/-- `Class.__setattr__` (current code: `return` after overwriting the declared key) -/
+/-- `Class.__setattr__` (current code: `return object.__setattr__(self, attr, value)` on a match - the property of a
+    referential attribute refuses, whatever `__dict__` holds) -/
 def setattr (c : Cls) (d : Dict) (sp : Name) (v : Val) : Dict × SetRes :=
   match declMatch c sp with
-  | some a =>
-    match dget d a with
-    | some _ => (dset d a v, .ok)                                   -- self.__dict__[attr] = value; return
-    | none => if a ∈ c.refs then (d, .metaExc) else (dset d a v, .ok)   -- object.__setattr__(self, attr, value)
-  | none => (dset d sp v, .ok)                                      -- self.__dict__[name] = value
+  | some a => if a ∈ c.refs then (d, .metaExc) else (dset d a v, .ok)   -- object.__setattr__(self, attr, value)
+  | none => (dset d sp v, .ok)                                          -- self.__dict__[name] = value
 
 inductive DelRes where
   | ok
